@@ -543,6 +543,10 @@ ENTRY: Dict[str, Tuple[str, Any]] = {
     "Qualifier.type.set": ("qualifier_type", _e_setter(lambda w: w.m.Qualifier("t", w.dt.Int), "type")),
     "Capability.category.ctor": ("name_type", lambda w, v: w.m.Capability("c", category=v)),
     "Submodel.category.set": ("name_type", _e_setter(lambda w: w.m.Submodel("urn:x"), "category")),
+    # DataElement category (AASd-090): the overriding DataElement._set_category is never wired to the property
+    "Property.category.ctor": ("name_type", lambda w, v: w.m.Property("p", w.dt.Int, category=v)),
+    "Property.category.set": ("name_type", _e_setter(lambda w: w.m.Property("p", w.dt.Int), "category")),
+    "Range.category.set": ("name_type", _e_setter(lambda w: w.m.Range("r", w.dt.Int), "category")),
     "SpecificAssetId.name.ctor": ("label_type", lambda w, v: w.m.SpecificAssetId(v, "v")),
     "SpecificAssetId.value.ctor": ("identifier", lambda w, v: w.m.SpecificAssetId("n", v)),
     "BasicEventElement.message_topic.set": ("message_topic_type", _e_setter(
@@ -590,6 +594,8 @@ def gen_string_lines(ctx: C.Ctx) -> List[list]:
         pool = boundary_strings(mn, mx)
         if check in ("version_type", "revision_type"):
             pool = pool + VERSION_POOL
+        if ".category." in label:
+            pool = pool + ["CONSTANT", "PARAMETER", "VARIABLE", "FOO", "variable"]
         if ctx.tier == "quick":
             keep = pool[:5] + [p for i, p in enumerate(pool[5:]) if (i + len(label)) % 3 == 0 or len(p) < 3]
             pool = keep
@@ -980,6 +986,10 @@ def judge_stateless(line: list, w: World) -> Tuple[Any, Optional[C.Failing]]:
         good = str_ok(line[1], s)
         if r == ["raise", "AssertionError"]:
             f = C.Failing(f"{meta['entry']}:not-atomic-or-not-stored", f"{meta['entry']}({s[:20]!r}…)", line)
+        elif acc and good and meta["entry"].split(".")[0] in ("Property", "Range") and ".category." in meta["entry"] \
+                and s not in ("CONSTANT", "PARAMETER", "VARIABLE"):
+            f = C.Failing(f"{meta['entry']}:accepted:aasd090", f"{meta['entry']} accepted category {s[:20]!r} (AASd-090: CONSTANT, "
+                          "PARAMETER or VARIABLE)", line)
         elif acc and not good:
             f = C.Failing(f"{meta['entry']}:accepted:{line[1]}", f"{meta['entry']} accepted a string outside {line[1]} (len {len(s)}, "
                           f"cps {[hex(ord(c)) for c in s[-2:]]})", line)
